@@ -243,6 +243,15 @@ func (x *exec) reconcileReal(revName string) error {
 	after := x.loadRev(revName)
 	if !active {
 		x.checkPostRelease(ri, hadRefs, log)
+		// whatever the revision's status lists: once an inactive revision's reconcile has completed it
+		// controls none of the objects it ships (deactivation gives up control)
+		for _, s := range ri.Specs {
+			if o := x.w.GetObj(s.key()); o != nil && controllerUID(o) == ri.UID {
+				x.c.Violate("inactive-revision-still-controller-after-its-reconcile:"+s.Kind, x.caseName,
+					fmt.Sprintf("the reconcile of the inactive revision %s completed without error, yet it still controls %s (its status lists %d of its %d objects)", revName, s.key(), len(hadRefs), len(ri.Specs)), x.witness(log))
+				break
+			}
+		}
 	}
 	if willEstablish {
 		x.count("establish_ok_"+role, 1)
